@@ -132,7 +132,8 @@ fn gate_body(total: usize) {
     vcover!(extra == 27, "longest suffix");
     vcover!(extra == 0, "nothing after the item");
     assert!(!is_ok, "C02: a record whose signature item is a list is rejected");
-    assert!(size_err == (total > enr::VERIF_MAX_ENR_SIZE), "C09: the decoder refuses for size exactly the items longer than the limit, whatever follows them");
+    assert!(!(total > enr::VERIF_MAX_ENR_SIZE) || size_err, "C09: the decoder refuses every item longer than the limit");
+    assert!(!size_err || total > enr::VERIF_MAX_ENR_SIZE, "C13: an item within the limit is not refused for size because of what follows it");
     assert!(size_err || other_err, "C13: an item within the limit is judged on its own content, whatever follows it");
 }
 #[cfg_attr(kani, kani::proof)]
@@ -695,18 +696,20 @@ pub fn d_seq() {
 // (uninterpreted verifier answering yes), so that only the rule under test is violated.
 // ------------------------------------------------------------------------------------------------
 
+/// (accepted and consumed exactly, reports the value verbatim and re-encodes to the input length)
 #[inline(always)]
-fn probe_accepts(buf: &[u8], key: &str, raw: &[u8], check_raw: bool) -> bool {
+fn probe_accepts(buf: &[u8], key: &str, raw: &[u8], check_raw: bool) -> (bool, bool) {
     let o = run_decode(buf);
-    let mut good = o.ok && o.consumed_all;
+    let accepted = o.ok && o.consumed_all;
+    let mut verbatim = true;
     if let Some(e) = &o.rec {
-        good = good && e.size() == buf.len();
+        verbatim = e.size() == buf.len();
         if check_raw {
-            good = good && e.get_raw_rlp(key) == Some(raw);
+            verbatim = verbatim && e.get_raw_rlp(key) == Some(raw);
         }
     }
     core::mem::forget(o);
-    good
+    (accepted, verbatim)
 }
 #[inline(always)]
 fn probe_rejects(buf: &[u8]) -> bool {
@@ -728,8 +731,9 @@ fn oracle_yes() {
 #[cfg_attr(kani, kani::stub(enr::Enr::id, id_stub))]
 pub fn dp_ok_base() {
     oracle_yes();
-    let good = probe_accepts(&[0xd0, 0x84, 0x01, 0x02, 0x03, 0x04, 0x81, 0x90, 0x82, 0x69, 0x64, 0x82, 0x76, 0x34, 0x6b, 0x81, 0x99], "", &[], false);
-    assert!(good, "C02: well-formed records are accepted, consumed exactly and report their values verbatim");
+    let (accepted, verbatim) = probe_accepts(&[0xd0, 0x84, 0x01, 0x02, 0x03, 0x04, 0x81, 0x90, 0x82, 0x69, 0x64, 0x82, 0x76, 0x34, 0x6b, 0x81, 0x99], "", &[], false);
+    assert!(accepted, "C02: a well-formed record is accepted and consumed exactly");
+    assert!(!accepted || verbatim, "C04: a decoded record reports its values as the raw RLP of the input and re-encodes to the input length");
 }
 
 /// accepted: tcp 8080
@@ -738,8 +742,9 @@ pub fn dp_ok_base() {
 #[cfg_attr(kani, kani::stub(enr::Enr::id, id_stub))]
 pub fn dp_ok_tcp_8080() {
     oracle_yes();
-    let good = probe_accepts(&[0xd7, 0x84, 0x01, 0x02, 0x03, 0x04, 0x81, 0x90, 0x82, 0x69, 0x64, 0x82, 0x76, 0x34, 0x6b, 0x81, 0x99, 0x83, 0x74, 0x63, 0x70, 0x82, 0x1f, 0x90], "tcp", &[0x82, 0x1f, 0x90], true);
-    assert!(good, "C02: well-formed records are accepted, consumed exactly and report their values verbatim");
+    let (accepted, verbatim) = probe_accepts(&[0xd7, 0x84, 0x01, 0x02, 0x03, 0x04, 0x81, 0x90, 0x82, 0x69, 0x64, 0x82, 0x76, 0x34, 0x6b, 0x81, 0x99, 0x83, 0x74, 0x63, 0x70, 0x82, 0x1f, 0x90], "tcp", &[0x82, 0x1f, 0x90], true);
+    assert!(accepted, "C02: a well-formed record is accepted and consumed exactly");
+    assert!(!accepted || verbatim, "C04: a decoded record reports its values as the raw RLP of the input and re-encodes to the input length");
 }
 
 /// accepted: udp6 5
@@ -748,8 +753,9 @@ pub fn dp_ok_tcp_8080() {
 #[cfg_attr(kani, kani::stub(enr::Enr::id, id_stub))]
 pub fn dp_ok_udp6_5() {
     oracle_yes();
-    let good = probe_accepts(&[0xd6, 0x84, 0x01, 0x02, 0x03, 0x04, 0x81, 0x90, 0x82, 0x69, 0x64, 0x82, 0x76, 0x34, 0x6b, 0x81, 0x99, 0x84, 0x75, 0x64, 0x70, 0x36, 0x05], "udp6", &[0x05], true);
-    assert!(good, "C02: well-formed records are accepted, consumed exactly and report their values verbatim");
+    let (accepted, verbatim) = probe_accepts(&[0xd6, 0x84, 0x01, 0x02, 0x03, 0x04, 0x81, 0x90, 0x82, 0x69, 0x64, 0x82, 0x76, 0x34, 0x6b, 0x81, 0x99, 0x84, 0x75, 0x64, 0x70, 0x36, 0x05], "udp6", &[0x05], true);
+    assert!(accepted, "C02: a well-formed record is accepted and consumed exactly");
+    assert!(!accepted || verbatim, "C04: a decoded record reports its values as the raw RLP of the input and re-encodes to the input length");
 }
 
 /// accepted: udp 0 as empty string
@@ -758,8 +764,9 @@ pub fn dp_ok_udp6_5() {
 #[cfg_attr(kani, kani::stub(enr::Enr::id, id_stub))]
 pub fn dp_ok_udp_0_as_empty_string() {
     oracle_yes();
-    let good = probe_accepts(&[0xd5, 0x84, 0x01, 0x02, 0x03, 0x04, 0x81, 0x90, 0x82, 0x69, 0x64, 0x82, 0x76, 0x34, 0x6b, 0x81, 0x99, 0x83, 0x75, 0x64, 0x70, 0x80], "udp", &[0x80], true);
-    assert!(good, "C02: well-formed records are accepted, consumed exactly and report their values verbatim");
+    let (accepted, verbatim) = probe_accepts(&[0xd5, 0x84, 0x01, 0x02, 0x03, 0x04, 0x81, 0x90, 0x82, 0x69, 0x64, 0x82, 0x76, 0x34, 0x6b, 0x81, 0x99, 0x83, 0x75, 0x64, 0x70, 0x80], "udp", &[0x80], true);
+    assert!(accepted, "C02: a well-formed record is accepted and consumed exactly");
+    assert!(!accepted || verbatim, "C04: a decoded record reports its values as the raw RLP of the input and re-encodes to the input length");
 }
 
 /// accepted: ip 127.0.0.1
@@ -768,8 +775,9 @@ pub fn dp_ok_udp_0_as_empty_string() {
 #[cfg_attr(kani, kani::stub(enr::Enr::id, id_stub))]
 pub fn dp_ok_ip_127_0_0_1() {
     oracle_yes();
-    let good = probe_accepts(&[0xd8, 0x84, 0x01, 0x02, 0x03, 0x04, 0x81, 0x90, 0x82, 0x69, 0x64, 0x82, 0x76, 0x34, 0x82, 0x69, 0x70, 0x84, 0x7f, 0x00, 0x00, 0x01, 0x6b, 0x81, 0x99], "ip", &[0x84, 0x7f, 0x00, 0x00, 0x01], true);
-    assert!(good, "C02: well-formed records are accepted, consumed exactly and report their values verbatim");
+    let (accepted, verbatim) = probe_accepts(&[0xd8, 0x84, 0x01, 0x02, 0x03, 0x04, 0x81, 0x90, 0x82, 0x69, 0x64, 0x82, 0x76, 0x34, 0x82, 0x69, 0x70, 0x84, 0x7f, 0x00, 0x00, 0x01, 0x6b, 0x81, 0x99], "ip", &[0x84, 0x7f, 0x00, 0x00, 0x01], true);
+    assert!(accepted, "C02: a well-formed record is accepted and consumed exactly");
+    assert!(!accepted || verbatim, "C04: a decoded record reports its values as the raw RLP of the input and re-encodes to the input length");
 }
 
 /// accepted: custom empty list
@@ -778,8 +786,9 @@ pub fn dp_ok_ip_127_0_0_1() {
 #[cfg_attr(kani, kani::stub(enr::Enr::id, id_stub))]
 pub fn dp_ok_custom_empty_list() {
     oracle_yes();
-    let good = probe_accepts(&[0xd2, 0x84, 0x01, 0x02, 0x03, 0x04, 0x81, 0x90, 0x82, 0x69, 0x64, 0x82, 0x76, 0x34, 0x6b, 0x81, 0x99, 0x78, 0xc0], "x", &[0xc0], true);
-    assert!(good, "C02: well-formed records are accepted, consumed exactly and report their values verbatim");
+    let (accepted, verbatim) = probe_accepts(&[0xd2, 0x84, 0x01, 0x02, 0x03, 0x04, 0x81, 0x90, 0x82, 0x69, 0x64, 0x82, 0x76, 0x34, 0x6b, 0x81, 0x99, 0x78, 0xc0], "x", &[0xc0], true);
+    assert!(accepted, "C02: a well-formed record is accepted and consumed exactly");
+    assert!(!accepted || verbatim, "C04: a decoded record reports its values as the raw RLP of the input and re-encodes to the input length");
 }
 
 /// accepted: custom nested lists
@@ -788,8 +797,9 @@ pub fn dp_ok_custom_empty_list() {
 #[cfg_attr(kani, kani::stub(enr::Enr::id, id_stub))]
 pub fn dp_ok_custom_nested_lists() {
     oracle_yes();
-    let good = probe_accepts(&[0xd4, 0x84, 0x01, 0x02, 0x03, 0x04, 0x81, 0x90, 0x82, 0x69, 0x64, 0x82, 0x76, 0x34, 0x6b, 0x81, 0x99, 0x78, 0xc2, 0xc0, 0xc0], "x", &[0xc2, 0xc0, 0xc0], true);
-    assert!(good, "C02: well-formed records are accepted, consumed exactly and report their values verbatim");
+    let (accepted, verbatim) = probe_accepts(&[0xd4, 0x84, 0x01, 0x02, 0x03, 0x04, 0x81, 0x90, 0x82, 0x69, 0x64, 0x82, 0x76, 0x34, 0x6b, 0x81, 0x99, 0x78, 0xc2, 0xc0, 0xc0], "x", &[0xc2, 0xc0, 0xc0], true);
+    assert!(accepted, "C02: a well-formed record is accepted and consumed exactly");
+    assert!(!accepted || verbatim, "C04: a decoded record reports its values as the raw RLP of the input and re-encodes to the input length");
 }
 
 /// accepted: custom empty string
@@ -798,8 +808,9 @@ pub fn dp_ok_custom_nested_lists() {
 #[cfg_attr(kani, kani::stub(enr::Enr::id, id_stub))]
 pub fn dp_ok_custom_empty_string() {
     oracle_yes();
-    let good = probe_accepts(&[0xd2, 0x84, 0x01, 0x02, 0x03, 0x04, 0x81, 0x90, 0x82, 0x69, 0x64, 0x82, 0x76, 0x34, 0x6b, 0x81, 0x99, 0x78, 0x80], "x", &[0x80], true);
-    assert!(good, "C02: well-formed records are accepted, consumed exactly and report their values verbatim");
+    let (accepted, verbatim) = probe_accepts(&[0xd2, 0x84, 0x01, 0x02, 0x03, 0x04, 0x81, 0x90, 0x82, 0x69, 0x64, 0x82, 0x76, 0x34, 0x6b, 0x81, 0x99, 0x78, 0x80], "x", &[0x80], true);
+    assert!(accepted, "C02: a well-formed record is accepted and consumed exactly");
+    assert!(!accepted || verbatim, "C04: a decoded record reports its values as the raw RLP of the input and re-encodes to the input length");
 }
 
 /// accepted: custom 3-byte string
@@ -808,8 +819,9 @@ pub fn dp_ok_custom_empty_string() {
 #[cfg_attr(kani, kani::stub(enr::Enr::id, id_stub))]
 pub fn dp_ok_custom_3_byte_string() {
     oracle_yes();
-    let good = probe_accepts(&[0xd5, 0x84, 0x01, 0x02, 0x03, 0x04, 0x81, 0x90, 0x82, 0x69, 0x64, 0x82, 0x76, 0x34, 0x6b, 0x81, 0x99, 0x78, 0x83, 0x01, 0x02, 0x03], "x", &[0x83, 0x01, 0x02, 0x03], true);
-    assert!(good, "C02: well-formed records are accepted, consumed exactly and report their values verbatim");
+    let (accepted, verbatim) = probe_accepts(&[0xd5, 0x84, 0x01, 0x02, 0x03, 0x04, 0x81, 0x90, 0x82, 0x69, 0x64, 0x82, 0x76, 0x34, 0x6b, 0x81, 0x99, 0x78, 0x83, 0x01, 0x02, 0x03], "x", &[0x83, 0x01, 0x02, 0x03], true);
+    assert!(accepted, "C02: a well-formed record is accepted and consumed exactly");
+    assert!(!accepted || verbatim, "C04: a decoded record reports its values as the raw RLP of the input and re-encodes to the input length");
 }
 
 /// accepted: custom single byte
@@ -818,8 +830,9 @@ pub fn dp_ok_custom_3_byte_string() {
 #[cfg_attr(kani, kani::stub(enr::Enr::id, id_stub))]
 pub fn dp_ok_custom_single_byte() {
     oracle_yes();
-    let good = probe_accepts(&[0xd2, 0x84, 0x01, 0x02, 0x03, 0x04, 0x81, 0x90, 0x82, 0x69, 0x64, 0x82, 0x76, 0x34, 0x6b, 0x81, 0x99, 0x78, 0x05], "x", &[0x05], true);
-    assert!(good, "C02: well-formed records are accepted, consumed exactly and report their values verbatim");
+    let (accepted, verbatim) = probe_accepts(&[0xd2, 0x84, 0x01, 0x02, 0x03, 0x04, 0x81, 0x90, 0x82, 0x69, 0x64, 0x82, 0x76, 0x34, 0x6b, 0x81, 0x99, 0x78, 0x05], "x", &[0x05], true);
+    assert!(accepted, "C02: a well-formed record is accepted and consumed exactly");
+    assert!(!accepted || verbatim, "C04: a decoded record reports its values as the raw RLP of the input and re-encodes to the input length");
 }
 
 /// accepted: seq 2^64-1
@@ -828,8 +841,9 @@ pub fn dp_ok_custom_single_byte() {
 #[cfg_attr(kani, kani::stub(enr::Enr::id, id_stub))]
 pub fn dp_ok_seq_2_64_1() {
     oracle_yes();
-    let good = probe_accepts(&[0xd7, 0x84, 0x01, 0x02, 0x03, 0x04, 0x88, 0xff, 0xff, 0xff, 0xff, 0xff, 0xff, 0xff, 0xff, 0x82, 0x69, 0x64, 0x82, 0x76, 0x34, 0x6b, 0x81, 0x99], "", &[], false);
-    assert!(good, "C02: well-formed records are accepted, consumed exactly and report their values verbatim");
+    let (accepted, verbatim) = probe_accepts(&[0xd7, 0x84, 0x01, 0x02, 0x03, 0x04, 0x88, 0xff, 0xff, 0xff, 0xff, 0xff, 0xff, 0xff, 0xff, 0x82, 0x69, 0x64, 0x82, 0x76, 0x34, 0x6b, 0x81, 0x99], "", &[], false);
+    assert!(accepted, "C02: a well-formed record is accepted and consumed exactly");
+    assert!(!accepted || verbatim, "C04: a decoded record reports its values as the raw RLP of the input and re-encodes to the input length");
 }
 
 /// accepted: seq 0
@@ -838,8 +852,9 @@ pub fn dp_ok_seq_2_64_1() {
 #[cfg_attr(kani, kani::stub(enr::Enr::id, id_stub))]
 pub fn dp_ok_seq_0() {
     oracle_yes();
-    let good = probe_accepts(&[0xcf, 0x84, 0x01, 0x02, 0x03, 0x04, 0x80, 0x82, 0x69, 0x64, 0x82, 0x76, 0x34, 0x6b, 0x81, 0x99], "", &[], false);
-    assert!(good, "C02: well-formed records are accepted, consumed exactly and report their values verbatim");
+    let (accepted, verbatim) = probe_accepts(&[0xcf, 0x84, 0x01, 0x02, 0x03, 0x04, 0x80, 0x82, 0x69, 0x64, 0x82, 0x76, 0x34, 0x6b, 0x81, 0x99], "", &[], false);
+    assert!(accepted, "C02: a well-formed record is accepted and consumed exactly");
+    assert!(!accepted || verbatim, "C04: a decoded record reports its values as the raw RLP of the input and re-encodes to the input length");
 }
 
 /// accepted: two custom keys
@@ -848,8 +863,9 @@ pub fn dp_ok_seq_0() {
 #[cfg_attr(kani, kani::stub(enr::Enr::id, id_stub))]
 pub fn dp_ok_two_custom_keys() {
     oracle_yes();
-    let good = probe_accepts(&[0xd4, 0x84, 0x01, 0x02, 0x03, 0x04, 0x81, 0x90, 0x82, 0x69, 0x64, 0x82, 0x76, 0x34, 0x6b, 0x81, 0x99, 0x78, 0x01, 0x79, 0x02], "y", &[0x02], true);
-    assert!(good, "C02: well-formed records are accepted, consumed exactly and report their values verbatim");
+    let (accepted, verbatim) = probe_accepts(&[0xd4, 0x84, 0x01, 0x02, 0x03, 0x04, 0x81, 0x90, 0x82, 0x69, 0x64, 0x82, 0x76, 0x34, 0x6b, 0x81, 0x99, 0x78, 0x01, 0x79, 0x02], "y", &[0x02], true);
+    assert!(accepted, "C02: a well-formed record is accepted and consumed exactly");
+    assert!(!accepted || verbatim, "C04: a decoded record reports its values as the raw RLP of the input and re-encodes to the input length");
 }
 
 /// rejected: udp6 >= 2^16
@@ -1212,3 +1228,29 @@ pub fn dp_no_long_form_header_for_a_short_list() {
     assert!(good, "C02: records that break a structural rule are rejected although their signature verifies");
 }
 
+
+// ------------------------------------------------------------------------------------------------
+// Arbitrary (unstructured) small inputs: every byte string of length 0..=6 through the decoder, every
+// ASCII text of length 0..=5 through from_str. No valid record is that short, so all must be
+// rejected with an error value, without panic, and (C13) without consuming past the item.
+// ------------------------------------------------------------------------------------------------
+
+#[cfg_attr(kani, kani::proof)]
+#[cfg_attr(kani, kani::stub(enr::digest, digest_stub))]
+#[cfg_attr(kani, kani::stub(enr::Enr::id, id_stub))]
+pub fn d_any_small() {
+    oracle();
+    let b: [u8; 6] = sym::bytes::<6>();
+    let n = sym::u8();
+    sym::assume(n <= 6);
+    let mut ok = false;
+    macro_rules! go { ($len:expr) => { if n == $len { let o = run_decode(&b[..$len]); ok = o.ok; core::mem::forget(o); } }; }
+    go!(0);
+    go!(1);
+    go!(2);
+    go!(3);
+    go!(4);
+    go!(5);
+    go!(6);
+    assert!(!ok, "C02: no input shorter than the smallest well-formed record is accepted");
+}
